@@ -74,3 +74,34 @@ where
     }
     info
 }
+
+// ---------------------------------------------------------------------------------------------
+// Event capture: every `emit_cpi` is an `invoke_signed` of an instruction whose data is
+// EVENT_IX_TAG ++ discriminator ++ borsh(event). Natively the stub records that data.
+use std::sync::Mutex;
+pub static EVENTS: Mutex<Vec<Vec<u8>>> = Mutex::new(Vec::new());
+
+struct CapturingStubs;
+impl SyscallStubs for CapturingStubs {
+    fn sol_get_clock_sysvar(&self, var_addr: *mut u8) -> u64 { Stubs.sol_get_clock_sysvar(var_addr) }
+    fn sol_get_last_restart_slot(&self, var_addr: *mut u8) -> u64 { Stubs.sol_get_last_restart_slot(var_addr) }
+    fn sol_log(&self, _message: &str) {}
+    fn sol_invoke_signed(
+        &self,
+        instruction: &anchor_lang::solana_program::instruction::Instruction,
+        _account_infos: &[AccountInfo],
+        _signers_seeds: &[&[&[u8]]],
+    ) -> anchor_lang::solana_program::entrypoint::ProgramResult {
+        EVENTS.lock().unwrap().push(instruction.data.clone());
+        Ok(())
+    }
+}
+
+/// Install sysvar stubs plus an `invoke_signed` stub that records event CPIs.
+pub fn install_capturing_stubs() {
+    set_syscall_stubs(Box::new(CapturingStubs));
+}
+
+pub fn take_events() -> Vec<Vec<u8>> {
+    std::mem::take(&mut *EVENTS.lock().unwrap())
+}
